@@ -55,10 +55,18 @@ pub fn value_for(r: &mut Rng, kind: &TypeInfoKind, big: usize) -> Value {
         TypeInfoKind::Unsigned(TypeLength::BitLength128) => Value::U128(u128r(r)),
         TypeInfoKind::Float(FloatWidth::Width32) => Value::F32(f32::from_bits(r.next() as u32)),
         TypeInfoKind::Float(FloatWidth::Width64) => Value::F64(f64::from_bits(r.next())),
-        TypeInfoKind::StringType => { let n = if r.one_in(10) { big } else { 12 }; Value::StringVal(r.text(n)) }
+        TypeInfoKind::StringType => {
+            let n = if r.one_in(10) { big } else { 12 };
+            let mut t = r.text(n);
+            if r.one_in(8) { t.push_str("DLT\u{1}x"); }
+            if r.one_in(12) { t.insert(0, '\u{feff}'); }
+            Value::StringVal(t)
+        }
         TypeInfoKind::Raw => {
             let n = if r.one_in(10) { r.below(big as u64 + 1) as usize } else { r.below(9) as usize };
-            Value::Raw(r.bytes(n))
+            let mut v = r.bytes(n);
+            if r.one_in(6) { let at = r.below(v.len() as u64 + 1) as usize; for (i, b) in b"DLT\x01".iter().enumerate() { v.insert(at + i, *b); } }   // a payload that itself contains the storage-header pattern
+            Value::Raw(v)
         }
     }
 }
@@ -131,7 +139,9 @@ pub fn try_message(r: &mut Rng, o: &MsgOpts) -> Option<Message> {
             }
             2 => {
                 let n = if r.one_in(8) { r.below(o.big as u64 + 1) as usize } else { r.below(6) as usize };
-                (PayloadContent::NonVerbose(r.next() as u32, r.bytes(n)), Some(message_type(r, &[3])), false)
+                let mut d = r.bytes(n);
+                if r.one_in(5) { d.extend(b"DLT\x01"); let k = r.below(5) as usize; d.extend(r.bytes(k)); }
+                (PayloadContent::NonVerbose(r.next() as u32, d), Some(message_type(r, &[3])), false)
             }
             3 => {
                 let n = r.below(6) as usize;
